@@ -37,6 +37,8 @@ Inductive Sh (T : option content) : nat -> sv -> Prop :=
     s_done s = false -> Sh T k s
 | ShFail : forall k s, tgt s = T -> s_ctl s = CFail -> s_err s = true -> s_done s = false ->
     (exists o, f = Some (o, KErr)) -> Sh T k s
+| ShAbort : forall k s, tgt s = T -> s_ctl s = CAbort -> s_err s = true -> s_done s = false ->
+    (exists o, f = Some (o, KErr)) -> Sh T k s
 | ShDead : forall k s, tgt s = T -> s_ctl s = CDead -> (exists o kd, f = Some (o, kd) /\ kd <> KErr) -> Sh T k s.
 
 Lemma fault_at_some : forall o k, fault_at f o = Some k -> f = Some (o, k).
@@ -55,17 +57,22 @@ Ltac dead_fault := eexists _, _; split; [eassumption|discriminate].
 Ltac sh_solve :=
   first [ solve [apply ShRun; simpl; auto]
         | solve [apply ShFail; unfold tgt; simpl; eauto]
+        | solve [apply ShAbort; unfold tgt; simpl; eauto]
         | solve [apply ShDead; unfold tgt; simpl; auto; dead_fault] ].
 
-Lemma sh_open : forall d, Sh (target d) 0 (exec f data n (sv0 d) FOpen).
+(* is_dir() before the try block, then the open *)
+Lemma sh_open : forall d, Sh (target d) 0 (exec f data n (exec f data n (sv0 d) FIsDir) FOpen).
 Proof.
-  intros [t tm]. unfold exec, apply_effect. simpl. fault_cases FOpen; simpl; sh_solve.
+  intros [t tm]. unfold exec at 2. unfold apply_effect. simpl.
+  fault_cases FIsDir; simpl; unfold exec, enabled, apply_effect; simpl; try sh_solve.
+  fault_cases FOpen; simpl; sh_solve.
 Qed.
 
 Lemma sh_write : forall T k s i, Sh T k s -> Sh T (S k) (exec f data n s (FWrite i)).
 Proof.
   intros T k [[t tm] c op er dn] i H. inversion H; subst; simpl in *; subst; unfold exec, enabled, apply_effect; simpl.
   - inversion H0; subst. fault_cases (FWrite i); simpl; sh_solve.
+  - sh_solve.
   - sh_solve.
   - sh_solve.
 Qed.
@@ -84,6 +91,7 @@ Proof.
   - inversion H0; subst. fault_cases FClose; simpl; sh_solve.
   - destruct H4 as [o Ho]. fault_cases FClose; simpl; try sh_solve; rewrite Ho in E; discriminate.
 Qed.
+
 
 (* what one save leaves behind: the complete classification *)
 Definition is_crash_fault : Prop := exists o kd, f = Some (o, kd) /\ kd <> KErr.
@@ -110,6 +118,7 @@ Proof.
     + fault_cases FRemove; simpl; out_solve.
   - destruct H4 as [o Ho]. unfold exec, enabled, apply_effect. simpl.
     fault_cases FRemove; simpl; try out_solve; rewrite Ho in E; discriminate.
+  - destruct H4 as [o Ho]. unfold exec, enabled. simpl. out_solve.
   - unfold exec, enabled. simpl. out_solve.
 Qed.
 
@@ -317,7 +326,9 @@ Proof. intros d m dead H. unfold finish, sync. destruct dead; simpl; auto. destr
 
 Lemma do_init_sync : forall M cfg f n d, sync (fst (do_init M cfg f n d)).
 Proof.
-  intros M cfg f n d. unfold do_init. destruct (load_file M d) as [raw loaded] eqn:L.
+  intros M cfg f n d. unfold do_init.
+  destruct (snd (pre_ops f init_pre)) as [[]|]; try exact I.
+  destruct (load_file M d) as [raw loaded] eqn:L.
   pose proof (save_params_post M f n d (init_state M cfg raw loaded)) as P.
   destruct (save_params M f n d (init_state M cfg raw loaded)) as [[d' m'] o].
   destruct P as [_ P]. assert (S0 : in_sync d (init_state M cfg raw loaded)).
@@ -327,7 +338,9 @@ Qed.
 
 Lemma do_init_tstep : forall M cfg f n d, tstep n d (dk (fst (do_init M cfg f n d))).
 Proof.
-  intros M cfg f n d. unfold do_init. destruct (load_file M d) as [raw loaded].
+  intros M cfg f n d. unfold do_init.
+  destruct (snd (pre_ops f init_pre)) as [[]|]; try apply tstep_refl.
+  destruct (load_file M d) as [raw loaded].
   pose proof (save_params_post M f n d (init_state M cfg raw loaded)) as P.
   destruct (save_params M f n d (init_state M cfg raw loaded)) as [[d' m'] o].
   destruct P as [P _]. destruct o as [|[]|]; simpl; auto.
@@ -362,7 +375,10 @@ Proof.
     split; [unfold finish; destruct dead; exact P1|].
     intros Hs. apply finish_sync. apply P2. unfold sync in Hs. now rewrite E in Hs.
   - destruct (md s) as [m|] eqn:E; simpl; [|split; [apply tstep_refl|auto]].
-    unfold do_load. destruct (load_file M (dk s)) as [raw loaded] eqn:L.
+    unfold do_load.
+    destruct (snd (pre_ops f load_pre)) as [[]|];
+      try (split; [apply tstep_refl|intros Hs; unfold sync in *; simpl; try exact I; now rewrite E in Hs]).
+    destruct (load_file M (dk s)) as [raw loaded] eqn:L.
     pose proof (write_init_post M f n (dk s) (fold_left (load_step M) loaded (set_pdata m (Some raw)))) as P.
     destruct (write_init M f n (dk s) (fold_left (load_step M) loaded (set_pdata m (Some raw)))) as [[d' m'] dead].
     destruct P as [P1 P2]. split; [unfold finish; destruct dead; exact P1|].
@@ -694,7 +710,8 @@ Definition base_ok (M : mdesc) (cfg : amap) : Prop :=
 Lemma startup_ok : forall M cfg n d, base_ok M cfg ->
   snd (do_init M cfg None n d) = ROk /\ md (fst (do_init M cfg None n d)) <> None.
 Proof.
-  intros M cfg n d Hb. unfold do_init. destruct (load_file M d) as [raw loaded] eqn:L.
+  intros M cfg n d Hb. unfold do_init. cbn [pre_ops init_pre fault_at snd].
+  destruct (load_file M d) as [raw loaded] eqn:L.
   assert (S : snapshot_of M (vals (init_state M cfg raw loaded)) <> None).
   { apply snapshot_total. intros i p Hn Hp. rewrite (init_precedence M cfg raw loaded i p Hn), Hp.
     eexists; split; [reflexivity|]. specialize (Hb i p Hn Hp).
